@@ -449,11 +449,22 @@ func runOne(x *core.Ctx, r *core.Rng, concurrent bool) {
 		fail("write-error", "a write was refused while the task master was open", "%d write calls failed", writeErrs)
 	}
 	// drain: closes the write stream, every task processes what was forked to it
-	tm.Drain()
-	for _, et := range stableETs {
-		if err := et.Wait(); err != nil {
-			fail("task-died", "a stream task ended with an error: "+firstWords(err.Error(), 8), "%v", err)
+	drained := make(chan struct{})
+	go func() {
+		tm.Drain()
+		for _, et := range stableETs {
+			if err := et.Wait(); err != nil {
+				fail("task-died", "a stream task ended with an error: "+firstWords(err.Error(), 8), "%v", err)
+			}
 		}
+		close(drained)
+	}()
+	select {
+	case <-drained:
+	case <-time.After(30 * time.Second):
+		fail("drain-hangs", "after the ingest stream was drained a task that ran throughout never finished", "30 s after Drain() at least one of the %d stable tasks is still waiting for input (its input edge was never closed); churn operations: %d", len(stableETs), churnOps)
+		closed = true // leak the environment: closing it would block as well
+		return
 	}
 	sinks := map[string][]kit.Item{}
 	for _, id := range env.Rec.SinkIDs() {
